@@ -167,7 +167,13 @@ func (w *vWorld) runParStep(nextId *int64, ops []vReq, sched []int) {
 		w.tr.Emit(ev)
 		s.gate("reply")
 	}
-	VerifPointFunc = func(name string, a interface{}, b interface{}) { s.gate(name) }
+	VerifPointFunc = func(name string, a interface{}, b interface{}) {
+		// only the lock-engine yield points are gates of this engine; the AOF hooks fire on background goroutines
+		switch name {
+		case "lock.mgr.got", "unlock.mgr.got", "sweep.timeout.collected", "sweep.expried.collected", "wake.enter", "wake.iter":
+			s.gate(name)
+		}
+	}
 	errs := s.runPar(actors, sched)
 	VerifPointFunc = nil
 	w.gate = nil
